@@ -8,7 +8,8 @@ use std::io::Write;
 use std::path::{Path, PathBuf};
 
 pub const NAMES: [&str; 10] = ["a", "b", "c", "data", "x", "é", "日本語", "my file", "Zz-9_", "long_name_aaaaaaaaaaaaaaaaaaaaaaaaaaaaaaaaaaaaaaaaaaaaaaaaaaaaaaaaaaaa"];
-pub const EXTS: [&str; 5] = ["", "txt", "x", "bin", "la"];
+/// the last two differ from earlier ones only by ASCII case (extensions are matched exactly)
+pub const EXTS: [&str; 7] = ["", "txt", "x", "bin", "la", "TXT", "X"];
 
 #[derive(Debug, Clone, Serialize, Deserialize)]
 pub enum Leaf {
@@ -402,13 +403,13 @@ pub fn tree_strategy(max_entries: usize) -> impl Strategy<Value = TreeSpec> {
     let leaf = prop_oneof![8 => (0u8..EXTS.len() as u8, content_strategy()).prop_map(|(ext, content)| Leaf::File { ext, content }), 1 => Just(Leaf::EmptyDir)];
     let entry = (prop::collection::vec(name, 1..5), leaf).prop_map(|(path, leaf)| EntrySpec { path, leaf });
     // some files get siblings with the same stem and another extension
-    (prop::collection::vec(entry, 0..max_entries), prop::collection::vec((any::<u8>(), 2u8..4), 0..6)).prop_map(|(mut entries, dups)| {
+    (prop::collection::vec(entry, 0..max_entries), prop::collection::vec((any::<u8>(), prop_oneof![2 => Just(2u8), 2 => Just(3u8), 1 => Just(5u8)]), 0..6)).prop_map(|(mut entries, dups)| {
         for (i, ext) in dups {
             if entries.is_empty() {
                 break;
             }
             let k = i as usize % entries.len();
-            // the pair (txt, x) or (txt, bin) under one stem
+            // the pair (txt, x), (txt, bin) or (txt, TXT) under one stem
             if let Leaf::File { ext: x, .. } = &mut entries[k].leaf {
                 *x = 1;
             }
